@@ -34,6 +34,8 @@ type Program struct {
 	fset      *token.FileSet
 	assumed   []string
 	recSpec   map[string]bool
+	specComps     map[string][]string
+	specCompSorts map[string]string
 }
 
 type globalInfo struct {
